@@ -183,8 +183,13 @@ func H_C08_compute() {
 		A(ok && ae.TypeId() == thrift.INTERNAL_ERROR, "any other handler error arrives as an application exception")
 		zzrt.Cover("foreign")
 	}
+	// exactly one reply message per call: nothing is left on the connection and the next call works
+	A(len(loop.in) == 0, "the client consumed the whole reply: one request is answered by exactly one message")
+	h.plain = zzrt.Int32("plain")
+	pl, err2 := cl.Plain(context.Background())
+	A(err2 == nil && pl == h.plain, "the next call on the same connection gets its own reply")
 	// wire format
-	A(len(loop.requests) == 1 && len(loop.replies) == 1, "one request, one reply")
+	A(len(loop.requests) == 2 && len(loop.replies) == 2, "one request, one reply")
 	q := zzParseMsg(loop.requests[0])
 	A(q.ok && q.typ == 1 && q.name == "compute", "request is <compute, CALL, seqid>")
 	p := zzParseMsg(loop.replies[0])
@@ -208,7 +213,7 @@ func H_C08_compute() {
 
 // H_C08_void_oneway: void with exception, oneway, inherited, keyword-named methods; two calls in a row.
 func H_C08_sequence() {
-	h := &zzHandler{mode: zzrt.Choose("mode", 2) * 1}
+	h := &zzHandler{mode: []int{0, 1, 3}[zzrt.Choose("mode", 3)]}
 	h.bad = &Bad{Why: zzrt.String("why", 1)}
 	h.plain = zzrt.Int32("plain")
 	h.str = zzrt.String("str", 2)
@@ -218,12 +223,18 @@ func H_C08_sequence() {
 	key := zzrt.String("key", 2)
 	err := cl.Touch(ctx, key)
 	A(h.gotKey == key, "void method receives its argument")
-	if h.mode == 1 {
+	switch h.mode {
+	case 1:
 		b, ok := err.(*Bad)
 		A(ok && b.Why == h.bad.Why, "void method delivers its declared exception")
-	} else {
+	case 3:
+		ae, ok := err.(thrift.TApplicationException)
+		A(ok && ae.TypeId() == thrift.INTERNAL_ERROR, "an undeclared error of a void method with a throws clause arrives as an application exception")
+	default:
 		A(err == nil, "void method returns nil")
 	}
+	A(len(loop.in) == 0, "nothing is left on the connection after the first call")
+	h.mode = 0
 	x := zzrt.Int32("x")
 	A(cl.Fire(ctx, x) == nil && h.gotX == x, "oneway method reaches the handler")
 	A(len(loop.requests) == 2 && len(loop.replies[1]) == 0, "oneway method produces no reply")
